@@ -270,6 +270,9 @@ Definition parse_int64 (tok : list byte) : option Z :=
 Definition value_follow (b : byte) : bool :=
   existsb (Nat.eqb b) [0; (nn 32); (nn 9); (nn 10); (nn 13); (nn 12); (nn 44); (nn 125); (nn 93); (nn 123); (nn 91); (nn 41)].
 
+(* maxNesting of parser.go *)
+Definition max_nesting : nat := nn 10000.
+
 Section Values.
 (* strconv.ParseFloat(tok, 64) succeeds (decided by Go for the tokens of the case) *)
 Variable float_ok : list byte -> bool.
@@ -279,8 +282,9 @@ Definition tok_false : list byte := [(nn 102); (nn 97); (nn 108); (nn 115); (nn 
 Definition tok_null : list byte := [(nn 110); (nn 117); (nn 108); (nn 108)].
 Definition eqb_bytes (a b : list byte) : bool := if list_eq_dec Nat.eq_dec a b then true else false.
 
-(* readValue. fuel bounds the recursion depth and every loop. *)
-Fixpoint read_value (fuel : nat) (s : pst) {struct fuel} : res pv :=
+(* readValue. fuel bounds the recursion depth and every loop.  d: the lists and objects open around
+   this value (parser.depth); a list or object that would be the (max_nesting+1)-th is a parse error *)
+Fixpoint read_value (fuel : nat) (d : nat) (s : pst) {struct fuel} : res pv :=
   match fuel with
   | 0 => RFuel
   | S f =>
@@ -320,13 +324,13 @@ Fixpoint read_value (fuel : nat) (s : pst) {struct fuel} : res pv :=
             end
           else if Nat.eqb b (nn 91) then
             match read_byte s1 with
-            | ROk _ s2 => read_list f fuel [] s2
+            | ROk _ s2 => if Nat.ltb max_nesting (S d) then RErr s2 else read_list f fuel (S d) [] s2
             | RErr s2 => RErr s2
             | RFuel => RFuel
             end
           else if Nat.eqb b (nn 123) then
             match read_byte s1 with
-            | ROk _ s2 => read_map f fuel [] s2
+            | ROk _ s2 => if Nat.ltb max_nesting (S d) then RErr s2 else read_map f fuel (S d) [] s2
             | RErr s2 => RErr s2
             | RFuel => RFuel
             end
@@ -346,7 +350,7 @@ Fixpoint read_value (fuel : nat) (s : pst) {struct fuel} : res pv :=
   end
 
 (* the list loop: n bounds the iterations *)
-with read_list (fuel : nat) (n : nat) (acc : list pv) (s : pst) {struct fuel} : res pv :=
+with read_list (fuel : nat) (n : nat) (d : nat) (acc : list pv) (s : pst) {struct fuel} : res pv :=
   match fuel with
   | 0 => RFuel
   | S f =>
@@ -365,8 +369,8 @@ with read_list (fuel : nat) (n : nat) (acc : list pv) (s : pst) {struct fuel} : 
                 | RFuel => RFuel
                 end
               else
-                match read_value f s1 with
-                | ROk v s2 => read_list f n' (v :: acc) s2
+                match read_value f d s1 with
+                | ROk v s2 => read_list f n' d (v :: acc) s2
                 | RErr s2 => RErr s2
                 | RFuel => RFuel
                 end
@@ -374,7 +378,7 @@ with read_list (fuel : nat) (n : nat) (acc : list pv) (s : pst) {struct fuel} : 
       end
   end
 
-with read_map (fuel : nat) (n : nat) (acc : list (list sitem * pv)) (s : pst) {struct fuel} : res pv :=
+with read_map (fuel : nat) (n : nat) (d : nat) (acc : list (list sitem * pv)) (s : pst) {struct fuel} : res pv :=
   match fuel with
   | 0 => RFuel
   | S f =>
@@ -416,8 +420,8 @@ with read_map (fuel : nat) (n : nat) (acc : list (list sitem * pv)) (s : pst) {s
                         else
                           match read_byte s3 with
                           | ROk _ s4 =>
-                              match read_value f s4 with
-                              | ROk v s5 => read_map f n' ((key, v) :: acc) s5
+                              match read_value f d s4 with
+                              | ROk v s5 => read_map f n' d ((key, v) :: acc) s5
                               | RErr s5 => RErr s5
                               | RFuel => RFuel
                               end
@@ -436,7 +440,7 @@ Definition init_pst (bs : list byte) (flt : bool) : pst := mkP bs flt 0 false 0 
 
 (* ParseValueString / ParseValue *)
 Definition parse_value (float_ok : list byte -> bool) (bs : list byte) (flt : bool) : res pv :=
-  read_value float_ok (2 * length bs + (nn 8)) (init_pst bs flt).
+  read_value float_ok (2 * length bs + (nn 8)) 0 (init_pst bs flt).
 
 (* ------------------------------------------------------------------ the writer *)
 (* a Go string being written: the result of `for _, r := range s` (runes; invalid bytes arrive as U+FFFD),
